@@ -42,37 +42,58 @@ def template(draw):
         acts = []
         for _ in range(draw(st.integers(0, 3))):
             ctx = draw(st.sampled_from(["enter", "recur", "exit"]))
-            k = draw(st.sampled_from(["putf", "incf", "putfr", "putfr"]))
+            k = draw(st.sampled_from(["putf", "incf", "putfr", "incm", "incm", "putr"]))
             v = draw(st.integers(1, 3))
             acts.append([ctx, k, v])
         if i + 1 < nfr:
             tr = draw(st.sampled_from([["abs", draw(st.integers(1, 9))], ["repeat", draw(st.integers(0, 3))],
-                                       ["timeout", draw(st.sampled_from(["0.125", "0.25", "0.375"]))], ["cnt", draw(st.integers(1, 4))]]))
+                                       ["timeout", draw(st.sampled_from(["0.125", "0.25", "0.375"]))], ["cnt", draw(st.integers(1, 4))],
+                                       ["m", draw(st.integers(1, 4))]]))
         else:
             tr = draw(st.sampled_from([None, ["done"], ["loop", draw(st.integers(2, 9))]]))
         acts_done = draw(st.booleans()) if i + 1 == nfr else False
         body.append({"acts": acts, "tr": tr})
-    nested = draw(st.sampled_from([None, None, {"tag": "inner", "frame": draw(st.integers(0, nfr - 1))}]))
+    nested = draw(st.sampled_from([None, {"tag": "inner", "frame": draw(st.integers(0, nfr - 1)),
+                                          "via": draw(st.sampled_from([None, "me.y", "y", "main"]))}]))
     clones = []
     for j in range(draw(st.integers(1, 3))):
         clones.append({"frame": draw(st.sampled_from(["f1", "f1", "f2"])),
                        "tag": draw(st.sampled_from(["mine", "c%d" % j])),
-                       "via": draw(st.sampled_from([None, None, "ino%d" % j]))})
+                       "via": draw(st.sampled_from([None, "ino%d" % j, "me.ino%d" % j, "ino%d" % j]))})
     rear = draw(st.sampled_from([None, {"n": draw(st.integers(1, 3)), "raze": draw(st.sampled_from([None, "all", "first", "last"])),
                                         "static_in_f4": draw(st.booleans())}]))
-    return {"body": body, "nested": nested, "clones": clones, "rear": rear,
+    # inode-relative data (`m of me`) is only private to a clone when every clone has its own inode:
+    # either the template uses it and then gives every static clone a distinct `via` (nested: me-relative)
+    # and rears nothing, or it does not use it at all
+    use_m = draw(st.booleans())
+    if use_m:
+        rear = None
+        for j, c in enumerate(clones):
+            c["via"] = draw(st.sampled_from(["ino%d" % j, "me.ino%d" % j]))
+        if nested:
+            nested["via"] = "me.y"
+    else:
+        for fr in body:
+            fr["acts"] = [a for a in fr["acts"] if a[1] != "incm"]
+            if fr["tr"] and fr["tr"][0] == "m":
+                fr["tr"] = ["abs", fr["tr"][1]]
+        if nested and nested.get("via") == "main":
+            nested["via"] = None
+    return {"body": body, "nested": nested, "clones": clones, "rear": rear, "use_m": use_m,
             "t1": draw(st.integers(1, 6)), "t2": draw(st.integers(1, 6)), "t3": draw(st.integers(1, 5)), "t4": draw(st.integers(1, 5)),
-            "loop": draw(st.booleans()), "ticks": draw(st.integers(8, 26))}
+            "loop": draw(st.booleans()), "ticks": draw(st.integers(8, 26)), "mainvia": draw(st.booleans())}
 
 
-def moot_lines(name, body, nested, sched):
+def moot_lines(name, body, nested, sched, use_m=False):
     L = ["framer %s be %s" % (name, sched)]
     for i, fr in enumerate(body):
         L.append("frame %s%d" % (name[0].upper(), i))
         if i == 0:
             L.append("put 0 into cnt of framer")   # relative shares are initialised before they are read
+            if use_m:
+                L.append("put 0 into m of me")
         if nested and nested["frame"] == i:
-            L.append("aux inner0 as %s" % nested["tag"])
+            L.append("aux inner0 as %s" % nested["tag"] + (" via %s" % nested["via"] if nested.get("via") else ""))
         cur = "native"
         for ctx, k, v in fr["acts"]:
             if ctx != cur:
@@ -84,6 +105,10 @@ def moot_lines(name, body, nested, sched):
                 L.append("inc cnt of framer with %d" % v)
             elif k == "putfr":
                 L.append("put %d into st of frame" % v)
+            elif k == "incm":
+                L.append("inc m of me with %d" % v)
+            elif k == "putr":
+                L.append("put %d into r" % v)
             else:
                 L.append("inc st of frame with %d" % v)
         tr = fr["tr"]
@@ -96,6 +121,8 @@ def moot_lines(name, body, nested, sched):
                 L.append("timeout %s" % tr[1])
             elif tr[0] == "cnt":
                 L.append("go next if cnt of framer >= %d" % tr[1])
+            elif tr[0] == "m":
+                L.append("go next if m of me >= %d" % tr[1])
             elif tr[0] == "done":
                 L.append("native")
                 L.append("done me")
@@ -108,7 +135,7 @@ def script(tp, baseline=None):
     """baseline = None: the clone script. baseline = ("static", j) / ("rear",): script in which M is a plain
     aux used where that clone is; all other clone clauses are placeholders (same line count)."""
     L = ["house h", "init .d.a with 0", "framer drv be active in front", "frame drva", "recur", "inc .d.a with 1"]
-    L += ["framer main be active first f1"]
+    L += ["framer main be active first f1" + (" via top" if tp.get("mainvia") else "")]
     rear = tp["rear"]
     for fname in ("f1", "f2"):
         L.append("frame %s" % fname)
@@ -142,8 +169,13 @@ def script(tp, baseline=None):
         L.append(("raze %s in frame f4" % rear["raze"]) if baseline is None else PLACEHOLDER)
     L.append("go f4 if elapsed >= %s" % (0.125 * tp["t4"]) if tp["loop"] else "go f1 if elapsed >= %s" % (0.125 * tp["t4"]))
     sched = "moot" if baseline is None else "aux"
-    L += moot_lines("org", tp["body"], tp["nested"], sched)
-    L += ["framer inner0 be moot", "frame I0", "recur", "inc cnt of framer with 1", "go next if .d.a >= 3", "frame I1", "done me"]
+    L += moot_lines("org", tp["body"], tp["nested"], sched, tp.get("use_m"))
+    if tp.get("use_m"):
+        L += ["framer inner0 be moot", "frame I0", "put 0 into m of me", "recur", "inc m of me with 1", "go next if m of me >= 3",
+              "frame I1", "done me"]
+    else:
+        L += ["framer inner0 be moot", "frame I0", "put 0 into cnt of framer", "recur", "inc cnt of framer with 1",
+              "go next if cnt of framer >= 3", "frame I1", "done me"]
     return "\n".join(L) + "\n"
 
 
